@@ -21,6 +21,8 @@ probe 180, shutdown 60, term 60, staleRunLock 60; for `sb`: booting 100, probe 3
      → per step `c<len(creating)>u<Unallocated>q<AtQuota>w<workers>a<Create returned>` joined by ','
   rs <o|e|r …>                                                   Pool.runSync with the cloud's Instances() answering ok / error /
      rate-limit error in turn, then ok → `lists=<n>`: Instances() calls seen, capped at script length + 1
+  rc <0|1>                                                       Pool.reportSSHConnected for an instance whose worker is (1) / is not (0)
+     in the pool → `ok` or `panic runtime error: invalid memory address or nil pointer dereference` (finding F15b)
   o1 <st<u>|pa<u/…|->|sd<u>,…>                                 runner objects of one Idle run-mode worker: StartContainer (the
      `crunch-run --detach` stays outstanding), probe applied with the listed uuids, completion of the outstanding start
      → `<S> sg=<…> rg=<…> ex=<…>`, or `panic close of closed channel` (cannot happen since the fix of F15a)
@@ -166,6 +168,11 @@ def stepW (f : List String) : Option String :=
     let evs := runSync rs
     let lists := evs.countP (fun e => match e with | .list _ => true | _ => false)
     pure s!"lists={if evs.getLast? == some SyncEv.rearm then lists + 1 else lists}"
+  | ["rc", known] => do
+    let k ← parseBool known
+    match reportSSHConnected (if k then [1] else []) 1 with
+    | some _ => pure "ok"
+    | none => pure "panic runtime error: invalid memory address or nil pointer dereference"
   | ["o1", ops] => do
     let ops ← (ops.splitOn ",").mapM (fun o =>
       if o.startsWith "st" then (o.drop 2).toString.toNat?.map RWOp.accept
